@@ -191,7 +191,7 @@ func (p *Pool) Exec(req *Req) Rep {
 					ws = w.cmd.ProcessState.String()
 				}
 				p.Close()
-				return Rep{Outcome: Died, Msg: ws + ": " + firstFatal(st), Stderr: st, Site: fatalSite(st)}
+				return Rep{Outcome: Died, Msg: ws + ": " + firstFatal(st), Stderr: st, Site: fatalSite(st), Phase: phase}
 			}
 			if r.Kind == "phase" {
 				phase = r.Phase
